@@ -320,3 +320,20 @@ func init() {
 		}
 	}
 }
+
+func init() {
+	dumpers["symsig"] = func(p *Prog, m *Model) {
+		fn := p.Funcs[os.Getenv("FN")]
+		if fn == nil {
+			fmt.Println("not found")
+			return
+		}
+		ps := fn.Params
+		if fn.Signature.Recv() != nil {
+			ps = ps[1:]
+		}
+		for _, l := range symmetrySig(fn, ps[0], ps[1], "A", "B") {
+			fmt.Println(l)
+		}
+	}
+}
